@@ -708,7 +708,10 @@ func ruleAtomDecorate(rule string) RuleFn {
 					}
 				}
 				if an.ShortName(fn) == "dig.newParamGroupedSlice" {
-					via = true
+					// the node must be complete and validated when it is added:
+					// an error exit of newParamGroupedSlice after the node was
+					// added leaves an unvalidated node in the graph
+					return false, ""
 				}
 				if via {
 					return true, "reasoned exception: unreferenced *paramGroupedSlice graph node (no incoming edge; leak only)"
@@ -717,7 +720,12 @@ func ruleAtomDecorate(rule string) RuleFn {
 			return false, ""
 		}
 		a.analyse(rule, tr, root, map[*ssa.Function]bool{})
-		// the same for Invoke's registration-like part (newParamList) is covered by the exception too.
+		// Invoke's registration-like part: building the parameter list of the
+		// invoked function adds group nodes that are never rolled back either.
+		if pl := c.Fn(rule, "dig.newParamList"); pl != nil {
+			tr2 := &transaction{root: "Invoke/newParamList", compensated: tr.compensated}
+			a.analyse(rule, tr2, pl, map[*ssa.Function]bool{})
+		}
 	}
 }
 
